@@ -339,7 +339,8 @@ func genYAMLDocText(t *rapid.T) string {
 		if d > 0 {
 			lines = append(lines, "---")
 		}
-		switch rapid.IntRange(0, 9).Draw(t, "doctype") {
+		switch rapid.IntRange(0, 10).Draw(t, "doctype") {
+		case 10: // an empty document: two separator lines in a row
 		case 0:
 			lines = append(lines, "- "+rapid.SampledFrom(yamlScalars).Draw(t, "seqitem"), "- second")
 		case 1:
